@@ -174,4 +174,25 @@ theorem overlap_converges (fv nv : Int) (h0 : supported fv nv 0 = true) (hs : Li
     | cons ab rest ih => intro A B h; exact ih ab.1 ab.2 h.2.2.2.2
   exact loose_synced fv nv _ D hnD hl
 
+/-! ### why the table must keep the stamps taken *before* the load
+
+A tempting "optimisation": after `loader.load` returns, stat the loaded shards again and remember those stamps (the
+shards were opened just now). If a shard is replaced after it was opened but before that second stat, the table then
+holds the new file's mtime for the old, still-loaded content, and no later scan reloads it. -/
+
+/-- a scan that stats `A`, loads from `A`, and then re-stats what it loaded in the later state `B` -/
+def scanStepRestat (fv nv : Int) (w : WState) (A B : Disk) : WState :=
+  match scan true fv nv A.ents w.ts with
+  | .ok o =>
+    let restat (kv : Bytes × Stamp) : Bytes × Stamp :=
+      if o.toLoad.contains kv.1 then
+        match B.find? (·.ent.fn == kv.1) with
+        | some f => (match f.ent.mtime with
+          | some mt => (kv.1, (mt, f.ent.side))
+          | none => kv)
+        | none => kv
+      else kv
+    ⟨o.ts.map restat, applyLoads A w.loaded o.toDrop o.toLoad⟩
+  | _ => w
+
 end ZoektModel.C19
